@@ -29,6 +29,7 @@ RULE = ('match: generated robots.txt files (several agent groups incl. the crawl
         'rule beyond 4 KiB / 404 / 5xx / redirect, pages with meta nofollow, 1-3 workers; non-trivial = rule file has '
         'a rule that matches the URL (match) / a robots.txt was fetched and at least one page decided (gate)')
 TRUSTED = ['tokenising of robots.txt into rule sets is the bundled third-party parser (logged, not modelled)',
+           'nofollow: html5lib and ElementWalker.iter_links_element are parameters (what they yield per element is logged)',
            'percent-decoding of rule paths and of the target (`_unquote_path`) is the bundled parser\'s (logged)',
            'str.lower of agent names (Python)']
 ASSUMPTIONS = ['"disallows" means what the bundled parser documents: first group whose agent matches (specific before *), '
@@ -497,8 +498,134 @@ def batch(ctx, cases):
                     'requests': ['%s%s' % (q['host'], q['target']) for q in results[0]['requests']]})
 
 
+# ------------------------------------------------------------------ nofollow (HTMLScraper)
+NF_CONTENTS = ['nofollow', 'noindex, nofollow', 'NOFOLLOW', 'NoFollow,noarchive', ' nofollow ']
+OK_CONTENTS = ['index, follow', 'noindex', 'all', '', 'follow', 'no follow', 'nofollo']
+
+
+def gen_nf_doc(rng):
+    """-> (elements, html bytes).  elements: ('meta', name, attr, content) | ('a'|'img'|'iframe'|'link-css'|'area', url)"""
+    els = []
+    n = rng.randint(0, 8)
+    for _ in range(n):
+        k = rng.choice(['a', 'a', 'img', 'img', 'iframe', 'link-css', 'area', 'script', 'other-meta'])
+        if k == 'other-meta':
+            els.append(('meta', rng.choice(['description', 'googlebot', 'ROBOT', 'robots-x']), 'content', rng.choice(NF_CONTENTS)))
+        else:
+            els.append((k, '/%s%d' % (k[0], rng.randint(0, 5))))
+    r = rng.random()
+    metas = []
+    if r < 0.45:
+        metas.append(('meta', rng.choice(['robots', 'ROBOTS', 'Robots']), 'content', rng.choice(NF_CONTENTS)))
+    elif r < 0.6:
+        metas.append(('meta', 'robots', 'content', rng.choice(OK_CONTENTS)))
+    elif r < 0.7:
+        metas.append(('meta', 'robots', rng.choice(['value', 'contents', 'http-equiv']), 'nofollow'))      # not the directive
+    elif r < 0.8:
+        metas += [('meta', 'robots', 'content', rng.choice(OK_CONTENTS)), ('meta', 'robots', 'content', rng.choice(NF_CONTENTS))]
+    for m in metas:
+        els.insert(rng.randint(0, len(els)), m)       # before, between or after the links
+    parts = []
+    for e in els:
+        if e[0] == 'meta':
+            parts.append('<meta name="%s" %s="%s">' % (e[1], e[2], e[3]))
+        elif e[0] == 'a':
+            parts.append('<a href="%s">x</a>' % e[1])
+        elif e[0] == 'img':
+            parts.append('<img src="%s">' % e[1])
+        elif e[0] == 'iframe':
+            parts.append('<iframe src="%s"></iframe>' % e[1])
+        elif e[0] == 'link-css':
+            parts.append('<link rel="stylesheet" href="%s">' % e[1])
+        elif e[0] == 'area':
+            parts.append('<map><area href="%s"></map>' % e[1])
+        elif e[0] == 'script':
+            parts.append('<script src="%s"></script>' % e[1])
+    head_n = rng.randint(0, len(parts))
+    doc = '<html><head><title>t</title>%s</head><body>%s</body></html>' % (''.join(parts[:head_n]), ''.join(parts[head_n:]))
+    return els, doc.encode()
+
+
+def real_scrape(doc, robots, refresh=None):
+    from wpull.document.htmlparse.html5lib_ import HTMLParser
+    from wpull.scraper.html import HTMLScraper, ElementWalker
+    from wpull.protocol.http.request import Request, Response
+    from wpull.body import Body
+    flags = []
+    orig = ElementWalker.robots_cannot_follow
+
+    def logged(element):
+        r = orig(element)
+        flags.append(bool(r))
+        return r
+    ElementWalker.robots_cannot_follow = staticmethod(logged) if not isinstance(ElementWalker.__dict__['robots_cannot_follow'], classmethod) \
+        else classmethod(lambda cls, element: logged(element))
+    try:
+        scraper = HTMLScraper(HTMLParser(), ElementWalker(), robots=robots)
+        request = Request('http://a.test/page.html')
+        response = Response(200, 'OK')
+        response.fields['Content-Type'] = 'text/html'
+        if refresh:
+            response.fields['Refresh'] = refresh
+        response.body = Body()
+        response.body.write(doc)
+        response.body.seek(0)
+        response.request = request
+        try:
+            result = scraper.scrape(request, response)
+        finally:
+            response.body.close()
+    finally:
+        ElementWalker.robots_cannot_follow = orig
+    ctxs = sorted({(c.link, bool(c.inline), bool(c.linked)) for c in result.link_contexts})
+    return ctxs, flags
+
+
+def stream_nofollow(ctx, n):
+    rng = ctx.subrng('nofollow')
+    reqs, meta = [], []
+    for _ in range(n):
+        els, doc = gen_nf_doc(rng)
+        robots = rng.random() < 0.8
+        refresh = '3; url=/refreshed' if rng.random() < 0.15 else None
+        every, _ = real_scrape(doc, False, refresh)               # what the walker yields (robots handling off)
+        kept, flags = real_scrape(doc, robots, refresh)
+        ids = {u: i for i, u in enumerate(sorted({c[0] for c in every}))}
+        seen = [f for f in flags]                                   # one entry per element examined while still looking
+        elems = ['%s:_' % ('m' if f else 'e') for f in seen] + ['e:' + ('|'.join('%d,%s,%s' % (ids[u], 'T' if i else 'F', 'T' if l else 'F')
+                                                                                  for u, i, l in every) or '_')]
+        reqs.append('robots nofollow %s %s' % ('T' if robots else 'F', ';'.join(elems)))
+        meta.append((els, doc, robots, refresh, every, kept, ids))
+    replies = ctx.model.ask(reqs)
+    for (els, doc, robots, refresh, every, kept, ids), rep in zip(meta, replies):
+        declared = any(e[0] == 'meta' and e[1].lower() == 'robots' and e[2] == 'content' and 'nofollow' in e[3].lower() for e in els)
+        case = {'stream': 'nofollow', 'doc': doc, 'robots': robots, 'refresh': refresh}
+        ctx.case(('nofollow', doc, robots, refresh), nontrivial=bool(every),
+                 tags=['nofollow:%s' % ('declared' if declared else 'not-declared'), 'nofollow:robots=%s' % robots])
+        real = '|'.join('%d,%s,%s' % (ids[u], 'T' if i else 'F', 'T' if l else 'F') for u, i, l in kept) or '~'
+        if sorted(rep.split('|')) != sorted(real.split('|')):
+            ctx.disagree('nofollow', case, rep, real)
+        # ---- oracle from the generator's own knowledge of the document
+        anchors = {'http://a.test' + e[1] for e in els if e[0] in ('a', 'area')}
+        images = {'http://a.test' + e[1] for e in els if e[0] == 'img'}
+        kept_urls = {u for u, i, l in kept}
+        if robots and declared:
+            followed = sorted(u for u, i, l in kept if l)
+            if followed:
+                ctx.fail('nofollow-ignored', 'html-scraper', case, 'the page declares nofollow but these links would be followed: %s' % followed[:4])
+        else:
+            if not anchors <= kept_urls:
+                ctx.fail('links-dropped', 'html-scraper', case, 'no nofollow in force but links were dropped: %s' % sorted(anchors - kept_urls)[:4])
+        if not images <= kept_urls:
+            ctx.fail('requisites-dropped', 'html-scraper', case, 'page requisites dropped: %s' % sorted(images - kept_urls)[:4])
+    if meta:
+        ctx.sample({'stream': 'nofollow', 'doc': meta[0][1], 'robots': meta[0][2]})
+
+
 def replay(ctx, case, kind=None, where=None):
-    if case.get('stream') == 'gate':
+    if case.get('stream') == 'nofollow':
+        replay_nofollow(ctx, case)
+    elif case.get('stream') == 'gate':
         batch(ctx, [(RSite.from_desc(case['site']), case['conc'], case['seed'], case.get('ua'))])
     else:
         from wpull.robotstxt import RobotsTxtPool
@@ -532,8 +659,24 @@ def run(ctx):
     for case in load_corpus(ctx):
         replay(ctx, case)
     stream_match(ctx, ctx.scale(1500, 40000))
+    stream_nofollow(ctx, ctx.scale(400, 8000))
     batch(ctx, gen_cases(ctx.rng, ctx.scale(60, 1500)))
 
 
+def replay_nofollow(ctx, case):
+    kept, _ = real_scrape(case['doc'], case['robots'], case.get('refresh'))
+    ctx.case(('nofollow', case['doc']))
+    doc = case['doc'].decode('latin-1').lower()
+    declared = bool(re.search(r'<meta name="robots" content="[^"]*nofollow', doc))
+    followed = sorted(u for u, i, l in kept if l)
+    if case['robots'] and declared and followed:
+        ctx.fail('nofollow-ignored', 'html-scraper', case, 'the page declares nofollow but these links would be followed: %s' % followed[:4])
+    if not (case['robots'] and declared):
+        anchors = {'http://a.test' + m for m in re.findall(r'<a href="([^"]*)"', case['doc'].decode('latin-1'))}
+        if not anchors <= {u for u, i, l in kept}:
+            ctx.fail('links-dropped', 'html-scraper', case, 'links dropped without a directive')
+
+
 def search(ctx):
+    stream_nofollow(ctx, ctx.scale(400, 3000))
     batch(ctx, gen_cases(ctx.subrng('search'), ctx.scale(10, 40)))
